@@ -2,9 +2,17 @@
 
 package main
 
-import "github.com/gregoryv/mq"
+import (
+	"io"
+
+	"github.com/gregoryv/mq"
+)
 
 // hook H2 of /repo (verif_step_on.go): every guarded read of the decoder counts as one step
 func init() {
 	mq.VerifStep = func(v interface{}, i, n int, errSet bool) { onStep() }
 }
+
+func verifVBIEncode(v uint) []byte { return mq.VerifVBIEncode(v) }
+func verifVBIDecode(b []byte) (uint, int, error) { return mq.VerifVBIDecode(b) }
+func verifVBIRead(r io.Reader) (uint, int64, error) { return mq.VerifVBIRead(r) }
